@@ -6,6 +6,7 @@ package main
 import (
 	"fmt"
 	"math/big"
+	"strconv"
 	"strings"
 )
 
@@ -56,8 +57,14 @@ func (e *Engine) cevalScalar(x CExpr, env *Env) (res Sc) {
 }
 
 func realLit(s string) string {
-	r, ok := new(big.Rat).SetString(s)
-	if !ok {
+	// real literals denote the float64 nearest to the decimal text, exactly as
+	// the Go compiler rounds the constants in the code under verification
+	f, err := strconv.ParseFloat(s, 64)
+	if err != nil {
+		cfail("bad real literal %s", s)
+	}
+	r := new(big.Rat).SetFloat64(f)
+	if r == nil {
 		cfail("bad real literal %s", s)
 	}
 	n, d := r.Num(), r.Denom()
